@@ -27,7 +27,11 @@ Fixpoint sf_stmt (M : imod) (G : env) (s : stmt) : option env :=
       | Some _, Some _ => Some G
       | _, _ => None
       end
-  | SWhile _ b | SBlock b => match sf_block M (push G) b with Some _ => Some G | None => None end
+  | SWhile _ b | SBlock b | SRepeat b _ | SDoWhile b _ => match sf_block M (push G) b with Some _ => Some G | None => None end
+  | SForEach _ t x _ b =>
+      if fresh_ok M G x
+      then match sf_block M (bind (push G) x (BVar t)) b with Some _ => Some G | None => None end
+      else None
   | SFor _ t x _ _ _ b =>
       if fresh_ok M G x
       then match sf_block M (bind (push G) x (BVar t)) b with Some _ => Some G | None => None end
